@@ -196,6 +196,12 @@ def run_unit(name, extra_args=(), variant=None, mutate_text=None, rlimit=None, s
         if kind is None or not prim:
             ur.tool_errors.append({"message": msg, "rendered": rendered})
             continue
+        if kind == "pre" and any("std_specs/ops.rs" in (sp.get("file_name") or "") for sp in spans) or (kind == "pre" and "std_specs/ops.rs" in rendered):
+            # `a + b`, `a / n` ... on a type for which vstd has no arithmetic model: the operator's own precondition is
+            # uninterpreted, so nothing can be decided about it (neither a panic nor its absence)
+            ur.tool_errors.append({"message": "operator on a type without an arithmetic model (uninterpreted precondition of vstd::std_specs::ops): "
+                                   + ((prim[0].get("text") or [{}])[0].get("text", "").strip()), "rendered": rendered})
+            continue
         ps = prim[0]
         fn = fn_at(tb, fn_index, ps["byte_start"])
         reg = region_at(regions, ps["byte_start"])
